@@ -26,7 +26,7 @@ def paramTypeNames : List String :=
   ["torchtree.core.parameter.Parameter", "torchtree.Parameter", "Parameter"]
 
 /-- keys of a Parameter specification that survive the re-injection -/
-def keptKeys : List String := ["id", "type", "dtype", "nn"]
+def keptKeys : List String := ["id", "type", "dtype", "nn", "device", "requires_grad"]
 
 def isParamSpec (kvs : JKVs) : Bool :=
   match kvs.lookup "type" with
@@ -46,8 +46,9 @@ def updateParams (ck : String → Option JKVs) : Json → Json
                 match saved.lookup "tensor" with
                 | some d => .obj ((kvs.keepOnly keptKeys).snoc "tensor" d)
                 | none => .obj kvs  -- KeyError in Python; not reachable for entries written by ParameterEncoder
-            | none => .obj kvs
-        | _ => .obj kvs
+            -- a parameter that is not in the checkpoint may define others inline (`full_like`, `zeros_like`, …)
+            | none => .obj (updateParamsKVs ck kvs)
+        | _ => .obj (updateParamsKVs ck kvs)
       else .obj (updateParamsKVs ck kvs)
   | j => j
 def updateParamsList (ck : String → Option JKVs) : Jsons → Jsons
